@@ -15,7 +15,7 @@ CHECKS = {
              "load_commandline_flags and checked against invariants computed from the flag metadata alone (implied flags on, no exclusive pair on, "
              "explicit conflict => error, explicit beats level, cumulative levels, no unjustified error); every permutation of every command line "
              "with <=4 (quick <=3) such flags, and of {file,-o,-O,-fA,-fno-B}, must resolve identically; all spellings agree; a finite malformed-option "
-             "menu must give RuntimeError. The space is finite and enumerated completely, so this is a decision for the stated bounds.",
+             "menu must give RuntimeError. The space is finite and enumerated completely, so this is a decision for the stated bounds. Histories of two command lines loaded in one process must resolve the second exactly as if it were loaded alone.",
         design_ref="DESIGN.md section 4, C19",
         note="Trusted: ProgramFlag metadata (implies/exclusive_with/defaults) and _OPTIMIZE_LEVELS as the specification of the relations; command lines longer than 4 permuted flags and option *values* beyond the malformed menu are not explored."),
 }
@@ -59,7 +59,7 @@ CHECKS["C08"] = dict(
          "x body variants (finish code per clause, else alone, else body starting with a match, empty body, else combined with a pattern) x greedy/priority assignments x the lexer shape "
          "(greedy case in a yielding loop) are compiled; for each accepted set the joint state space of the abstract machine and the parallel pattern automata is explored completely. "
          "The finish/yield code observed identifies the clause that ran: it must be the clause whose pattern equals the consumed bytes (highest priority for greedy, maximal munch), "
-         "else/FAIL exactly when no pattern is live, with the else body starting at the offending byte.",
+         "else/FAIL exactly when no pattern is live, with the else body starting at the offending byte. Clause bodies that only assign (ties decided by priority are accepted for them) are decided jointly with the reference interpreter.",
     design_ref="DESIGN.md section 4, C08",
     note="Trusted: derivative automata; AM (bound by C06); clause bodies restricted to finish/yield/one literal so that the executed clause is observable; pattern menu and <=4 clauses (small scope).")
 CHECKS["C16"] = dict(
@@ -68,7 +68,7 @@ CHECKS["C16"] = dict(
     text="Every wait pattern of a 20-pattern menu and every concatenation of two, in six contexts (plain, inside try/catch with a handler that finishes with a tell-tale code, in a loop with a hook, "
          "as a catch handler entered at the offending byte, and the first two with EOF support) is compiled; the joint state space of the abstract machine and the restart automaton "
          "(delta(q,c) if live, else delta(q0,c) if live, else q0) is explored completely. FAIL and the handler are never reachable, the statement after the wait fires exactly when the restart "
-         "automaton completes, end() during a wait reports FAIL without entering a handler.",
+         "automaton completes, end() during a wait reports FAIL without entering a handler. In addition every `statement; wait p` program over a menu of preceding statements (whose accepting states name bytes explicitly) is explored jointly with the reference interpreter, and the C of every wait program is run on every string <= 5 in every composition into chunks.",
     design_ref="DESIGN.md section 4, C16",
     note="Trusted: derivative automata and the restart construction; AM (bound by C06); patterns the compiler rejects (open-ended ones followed by a strict action) are counted, not judged.")
 
@@ -95,7 +95,7 @@ CHECKS["C09"] = dict(
     technique="exact language-theoretic decision on derivative automata for statement pairs and case clause sets, plus exhaustive search for ambiguity witnesses over all reachable REF x machine states of accepted programs",
     text="(a) all 196 x 4 pairs `A; B`, `optional {A} B`, `A; optional {B} \"c\"`, loop shapes over a 14-match menu and (b) all case clause sets of C08 are decided exactly: is there an accepting configuration of A and a byte "
          "that both continues A and starts B; are non-greedy clause languages pairwise disjoint and prefix-free; does every greedy tie have a unique top priority. (c) every accepted universe program is explored "
-         "with REF, which raises a witness at any reachable decision point where one byte has two continuations. Accepted-and-ambiguous is a violation with its witness input.",
+         "with REF, which raises a witness at any reachable decision point where one byte has two continuations. Accepted-and-ambiguous is a violation with its witness input. Loops whose body can still continue on a byte that starts the next iteration, loops left by a conditional break and duplicate patterns across clauses are part of the pair / case menus.",
     design_ref="DESIGN.md section 4, C09",
     note="Trusted: derivative automata; REF's notion of 'starts what follows' (bytes merely skipped by wait / taken only by else do not count); unambiguous-but-rejected is allowed.")
 
@@ -114,7 +114,7 @@ CHECKS["C10"] = dict(
     text="Per program and variant (indirect/direct pointer, strict-done, EOF, -O3, yields) every string <= L in every composition, continued after its last call by every sequence of <= 2 further calls from "
          "{feed 1 byte, feed 2 bytes, end}, is executed on the C; each call's code and pointer position must equal the machine's, OK only after the whole chunk, FAIL absorbing for feed and end, DONE/finish with the pointer on the "
          "last byte read, yields at the resume position. The strict-done machine must equal the non-strict one except that DONE moves to the following call. The exhaustive chunk explorer (C02's engine) additionally "
-         "checks OK-without-consuming, pointer-outside-chunk and non-absorbing FAIL on every schedule.",
+         "checks OK-without-consuming, pointer-outside-chunk and non-absorbing FAIL on every schedule. Fail and finish positions are also decided by the reference interpreter on the EOF universe and the hand-written programs (the first offending byte is a statement about the program, not about the machine).",
     design_ref="DESIGN.md section 4, C10",
     note="Trusted: AM as monitor (bound by C06/C01); calls after DONE/finish are unspecified and only compared with the machine; empty chunks are exercised under C12's zero-length option.")
 
@@ -125,7 +125,7 @@ CHECKS["C03"] = dict(
          "raw{uint16_t}, str[3] with a default, str[4], with sentinel outputs after every buffer) plus corpus and feature programs are built with clang AddressSanitizer, UndefinedBehaviorSanitizer and LeakSanitizer "
          "under every storage configuration {in-struct, heap, heap-on-demand} x {delete frees} x {char, uint8_t} x {safe, unsafe indexing (in-range programs)} x {-O1,-O2,-O3}; every string <= L over the selector alphabet "
          "is executed in one chunk and byte-wise (exact-size heap chunks, heap state struct), then the parser's free function runs. After every call: counter <= capacity, terminator present, buffer non-NULL when "
-         "length > 0, sentinels intact, pointers NULL after free. Constants and defaults that do not fit must be rejected at compile time.",
+         "length > 0, sentinels intact, pointers NULL after free. Constants and defaults that do not fit must be rejected at compile time. Builds are unoptimised (-O0) so that every load and store of the generated text is instrumented; chunks live in exactly sized heap blocks and, under zero-length support, an empty chunk is fed at the end of each.",
     design_ref="DESIGN.md section 4, C03",
     note="Trusted: clang 14 sanitizers as monitors; reads of never-written bytes are avoided by construction (no MSan); which handler an overflow reaches is C01/C06's subject; counter-width wrap-around of 256-byte strings is caught by C06's feat-bigstr, not here.")
 CHECKS["C12"] = dict(
@@ -143,7 +143,7 @@ CHECKS["C04"] = dict(
     text="For every accepted program of the bounded universe, the corpus and a cycle-seeking universe (loops whose bodies can complete without consuming: optional, try with empty / action / yield / delete / wait handlers for every "
          "reason list, if with and without else, case-else, overflow handlers that re-enter the appending construct, nested loops with breaks) the abstract machine is stepped from every reachable configuration and from every "
          "state under forced data contexts on every byte class and end-of-input; a repeated (state, data) inside one step of the deterministic machine, or yields that never consume, prove non-termination and are then "
-         "confirmed on the C binary under a wall-clock limit (or 40 yields without progress). The converse (a non-consuming control cycle of the procedural reading in an accepted program) is checked with REF.",
+         "confirmed on the C binary under a wall-clock limit (or 40 yields without progress). The converse (a non-consuming control cycle of the procedural reading in an accepted program) is checked with REF. The C of feature, corpus and cycle-seeking programs is also run on all short inputs under a wall-clock limit and a yield counter (feed: > 4n+8 yields in a chunk of n bytes; end: > 12 in a row), and a program rejected as possibly non-consuming must be rejected at every optimisation level.",
     design_ref="DESIGN.md section 4, C04",
     note="Trusted: AM (bound by C06); boundedness per call is argued from determinism + no repeat; forced contexts are a menu. One open known finding (KF9: cycles through action override targets) is matched on the machine-level cycle.")
 
@@ -168,12 +168,16 @@ CHECKS["C18"] = dict(
     note="Trusted: nothing beyond the classification of exceptions; single-site mutants from finite menus only.")
 CHECKS["C20"] = dict(
     category="model_checking",
-    technique="exhaustive enumeration of compilation histories (<= 2 prior compilations from an 8-program polluter set) and bounded identity-hash layout deviations in fresh interpreters under 4 hash seeds; each recompilation bisimulated (no slack) against the first",
-    text="Per program, child interpreters with PYTHONHASHSEED 0..3 compile it fresh, again, after every sequence of <= 2 polluter compilations (accepted, rejected in each phase, other flags), and under controlled "
-         "identity-hash layouts (__hash__ of nmfu's identity-hashed classes replaced by explorer-chosen permutations of creation order, which fixes set/dict iteration order); every recompilation must give the same verdict "
-         "and a machine bisimilar without slack to the first (explicit-state product search); across hash seeds the verdict and the behaviour table on all strings <= 4 must be identical.",
-    design_ref="DESIGN.md section 4, C20",
-    note="Trusted: AM; histories accumulate inside one child; layouts and hash seeds are finite menus (stated); emitted C text is not compared (numbering legitimately varies).")
+    technique="exhaustive enumeration of compilation histories (every polluter, every second ordered pair; polluters accepted / rejected in every phase, also from inside a macro expansion, and the program itself under flipped options), "
+              "of bounded identity-hash layout deviations, of child interpreters (hash seeds covering both orders of every enum-member pair; interpreters whose first compilation is something else); "
+              "recompilations compared by verdict, C text, bisimulation without slack and C runs on every string <= 4",
+    text="Per program, child interpreters compile it fresh, again, after every polluter sequence of length <= 2, and under controlled identity-hash layouts (__hash__ of nmfu's identity-hashed classes replaced by "
+         "explorer-chosen permutations of creation order, restarting with every compilation). Every recompilation must give the same verdict; unless the emitted C is textually the same program, the two machines must be "
+         "bisimilar without slack and both C programs must produce the same trace digests on every string <= 4. Across children (PYTHONHASHSEED values chosen so that both iteration orders of every pair of name-hashed enum "
+         "members occur; children that compile another program, or the same program under flipped options, first) verdict, behaviour table and C trace digests must be identical. Programs include name-shadowing macros and "
+         "sources with more than one grammatical reading.",
+    design_ref="DESIGN.md sections 4 (C20) and 8.2",
+    note="Trusted: AM; histories accumulate inside one child; identity-hash layouts and hash seeds are finite menus (stated); identical C text (comments aside) is taken as identical behaviour.")
 
 CHECKS["C11"] = dict(
     category="exploration",
